@@ -17,6 +17,8 @@ for d in sorted(glob.glob(os.path.join(VERIF, "seeded", "*"))):
     verdict = "; ".join(f"{k}: " + ("caught, failing input replayed" if v.get("with_failing_input") else
                                       "caught (no-failing-input-found)" if v.get("caught") else "MISSED")
                         for k, v in checks.items())
+    if "checks_after_fix_fc39d65" in w:
+        verdict += " (on the tree before fix fc39d65; harmless after the fix: checks quiet, as they must be)"
     summ = (m.get("summary") or "").replace("\n", " ").replace("|", "/")
     needs = (m.get("needs") or "").replace("\n", " ").replace("|", "/")
     conf = "yes" if w.get("confirmed") else "no"
